@@ -136,7 +136,7 @@ func (m *Machine) concretizeBV(t *sym.Term, c uint64) {
 	}
 	for i := w - 1; i >= 0; i-- {
 		bit := ctx.Eq(ctx.Extract(t, i, i), ctx.BVC(1, 1))
-		m.decide(bit, (c>>uint(i))&1 == 1, "concretize-bit")
+		m.decide(bit, (c>>uint(i))&1 == 1, "concretize-bit@"+m.where())
 	}
 }
 
